@@ -10,7 +10,7 @@ static const int MAX_OPS = 200;
 // weighted choice of the operation kind
 static const Kind KIND_TAB[32] = {K_MALLOC, K_MALLOC, K_MALLOC, K_MALLOC, K_MALLOC, K_MALLOC, K_CALLOC, K_CALLOC, K_REALLOC, K_REALLOC, K_REALLOC, K_REALLOC,
                                   K_AMALLOC, K_AMALLOC, K_AMALLOC, K_AREALLOC, K_AREALLOC, K_PMEMALIGN, K_PMEMALIGN, K_FREE, K_FREE, K_FREE, K_FREE, K_FREE,
-                                  K_FREE, K_MSIZE, K_CHECK, K_CLEAN_THR, K_CLEAN_ALL, K_THR_EXIT, K_RESET, K_FREE};
+                                  K_FREE, K_MSIZE, K_CHECK, K_CLEAN_THR, K_CLEAN_ALL, K_THR_EXIT, K_RESET, K_FILL};
 
 static void at_exit_flush() { flush_stats(); prof_print(); }
 
@@ -29,11 +29,14 @@ extern "C" int LLVMFuzzerTestOneInput(const uint8_t* data, size_t size) {
     std::vector<uint8_t> hdr = fdp.ConsumeBytes<uint8_t>(2);
     uint8_t h0 = hdr[0], h1 = hdr[1];
     pool_cfg[0] = PoolCfg{(uint8_t)(h0 & 7), (uint8_t)((h0 >> 3) & 3) == 3 ? (uint8_t)0 : (uint8_t)((h0 >> 3) & 3), (uint8_t)((h0 >> 5) & 3), (uint8_t)(h0 >> 7), 0, 1, 0};
+    // a quarter of the inputs run P0 as a fixed pool (one buffer, handed over whole, never grown): K_FILL then really fills it up
+    static const size_t FIXED_SIZES[8] = {24u << 10, 100u << 10, 256u << 10, 1u << 20, (2u << 20) + 4096, 4u << 20, 160u << 10, 512u << 10};
+    if ((h1 & 6) == 6) { pool_cfg[0].fixed = 1; pool_cfg[0].has_free = 0; pool_cfg[0].fixed_size = FIXED_SIZES[(h1 >> 3) & 7]; }
     pool_cfg[1] = pool_cfg[0];
     g_leave_live = h1 & 1;
     X = ExecCfg();
     g_case.clear();
-    { char b[96]; snprintf(b, sizeof b, "C17 trace: leave_live_at_destroy=%d\n", (int)g_leave_live); g_case += b; }
+    { char b[96]; snprintf(b, sizeof b, "C17 trace: leave_live_at_destroy=%d fixed_pool=%zu\n", (int)g_leave_live, pool_cfg[0].fixed ? pool_cfg[0].fixed_size : (size_t)0); g_case += b; }
     begin_run();
     std::vector<Op> ops;
     while (fdp.remaining_bytes() >= 6 && ops.size() < (size_t)MAX_OPS) {
